@@ -54,7 +54,7 @@ func run(args []string) {
 	if *only != "A" {
 		budget := 6 * time.Minute
 		if tier == "thorough" {
-			budget = 14 * time.Minute
+			budget = 12 * time.Minute
 		}
 		b, herr := c03b.Run(tier, seed, rep, time.Now().Add(budget))
 		if b == nil {
